@@ -334,7 +334,38 @@ def _do_extract(raw, i, unitfile, repo_root, out, log, meta, twin=False):
             or (kind == "impl" and normalize._is_trait_impl(name))
         text = normalize.publicize(text, kind, in_trait_impl, log)
     text = normalize.flatten_paths(text, log)
+    inst = [f for f in flags if f.startswith("instantiate=")]
+    if kind == "macro" and inst:
+        # mechanical instantiation of a one-group macro_rules! (`=> { $( BODY )* }`) for one value of its variable:
+        # BODY with `$var` replaced; everything else is blanked so that line numbers are kept.  Verus cannot see
+        # inside macro-generated items (and cannot weave spec items into them), hence this normalisation.
+        var, val = inst[0][len("instantiate="):].split(":", 1)
+        mt = mask(text)
+        arrow = mt.find("=>")
+        g = mt.find("$(", arrow)
+        if arrow < 0 or g < 0:
+            raise ExtractError(f"instantiate: macro {name} has no `=> {{ $( .. )* }}` transcriber")
+        gclose = match_bracket(mt, g + 1)
+        inner = text[g + 2:gclose]
+        blank = lambda s: "".join(c if c == "\n" else " " for c in s)
+        text = blank(text[:g + 2]) + inner.replace("$" + var, val) + blank(text[gclose:])
+        kind = "impl"   # (what such macros generate here; only used for the pub-normalisation, which trait impls skip)
+        log.count("N7 macro instantiated mechanically")
+        log.replaced.append({"item": ex.describe(), "class": "N7", "old": f"{name}! {{ .. {val} .. }}",
+                             "new": f"transcriber body with ${var} := {val}", "count": 1})
     gen_impls = []
+    if kind in ("struct", "enum") and "-derives" in flags:
+        # mutually recursive types (Instruction ↔ definitions holding Vec<Instruction>): Verus treats the derived
+        # Clone/PartialEq/Debug impls as a call cycle.  The derives are replaced by unspecified external impls
+        # (equality / printing of these types is never relied upon), Clone additionally assumed to return an equal value.
+        gm0 = re.search(r"\b(?:struct|enum)\s+\w+\s*(<[^>{(]*>)?", mask(text))
+        gp0 = (gm0.group(1) or "") if gm0 else ""
+        ga0 = "<" + ", ".join(p.strip().split(":")[0].strip() for p in gp0[1:-1].split(",")) + ">" if gp0 else ""
+        text = re.sub(r"#\[derive\([^)]*\)\]", lambda m: " " * len(m.group(0)), text, count=1)
+        gen_impls.append(f"impl{gp0} Clone for {name}{ga0} {{ #[verifier::external_body] fn clone(&self) -> (r: Self) ensures r == *self {{ unimplemented!() }} }}")
+        gen_impls.append(f"impl{gp0} PartialEq for {name}{ga0} {{ #[verifier::external_body] fn eq(&self, other: &Self) -> bool {{ unimplemented!() }} }}")
+        gen_impls.append(f"impl{gp0} Debug for {name}{ga0} {{ #[verifier::external_body] fn fmt(&self, f: &mut std::fmt::Formatter<'_>) -> std::fmt::Result {{ unimplemented!() }} }}")
+        log.count("assumed: derives of a recursive type replaced by external impls")
     if kind in ("struct", "enum") and ("+clone" in flags or "+eq" in flags):
         # derived Clone / PartialEq of non-Copy types get no specification from Verus: replace the derive by an
         # assumed (external_body) impl stating what #[derive] is documented to produce
@@ -377,6 +408,14 @@ def _do_extract(raw, i, unitfile, repo_root, out, log, meta, twin=False):
             if ck == "impl":
                 hdr = impl_header(repo_root, rel, cn, container[:ci] or None)
                 hdr = normalize.flatten_paths(hdr, log)
+                if "as_inherent" in flags:
+                    # `impl<..> Trait for Type` → `impl<..> Type`: the method is verified as an inherent method of the
+                    # same type (the other trait items are outside the unit); logged as a normalisation
+                    mh = re.match(r"(impl(?:\s*<[^>]*>)?)\s+.*?\bfor\b\s+(.*)$", norm_ws(hdr))
+                    if not mh:
+                        raise ExtractError(f"as_inherent: not a trait impl header: {hdr}")
+                    hdr = mh.group(1) + " " + mh.group(2)
+                    log.count("N5 trait-impl method verified as inherent method")
                 prefix_lines.append(Line(hdr + " {", ("gen", "impl header of " + ex.describe())))
                 suffix_lines.append(Line("}", ("gen", "impl close")))
             elif ck == "trait":
@@ -487,6 +526,20 @@ def _do_extract(raw, i, unitfile, repo_root, out, log, meta, twin=False):
         elif dname == "lift":
             _lift(item, ticks, _occ(words), log, ex)
             i += 1
+        elif dname == "bindtail":
+            # @bindtail `EXPR` `name: Type` ... @end : a tail expression EXPR becomes
+            #   { let name: Type = EXPR;  <ghost block>  name }
+            # so that a proof block can talk about the value before it is returned (let-introduction, weaving only)
+            block, i = parse_block(raw, i + 1, unitfile, default_label)
+            (a, e), _n = item.find_anchor(ticks[0], _occ(words))
+            binder = ticks[1]
+            ident = binder.split(":")[0].strip()
+            la, _ = item._line_index(a)
+            lb, _ = item._line_index(e - 1)
+            item.replace_span(e, e, ";")
+            item.replace_span(a, a, "{ let " + binder + " = ")
+            item.insert_lines(lb + 1, block + [Line(ident + " }", ("gen", "bindtail"))])
+            log.count("weave: tail expression bound to a name for a proof block")
         else:
             raise ExtractError(f"{unitfile}:{i+1}: unknown directive @{dname} inside @extract")
     out.extend(prefix_lines)
